@@ -7,7 +7,7 @@ CHECK = dict(
               # the shipped flags without sanitizers: volume for the explicit oracles, and the only flavor in which the optimiser is free to
               # show what it does with iovector.h's zero-length-array layout (stack probe in h_ser.cpp)
               dict(harness='h_ser', flavor='plain', execs=dict(quick=2, thorough=16), timeout=dict(quick=240, thorough=900), shapes=[None],
-                   cfg={}, cfg_quick={'inputs': 1400}, cfg_thorough={'inputs': 32000})],
+                   cfg={'salt': 7}, cfg_quick={'inputs': 1400}, cfg_thorough={'inputs': 32000})],
         par=16,
         level='exploration',
         rule='one evaluation = one checked (de)serialization: a seeded instance of one of 16 message types (plain fields, buffer, aligned_buffer, '
